@@ -30,6 +30,26 @@ GROUPS = [
  dict(VMG, name="tail_call_frame", functions=["vm.c:sexp_apply:case SEXP_OP_TAIL_CALL", "vm.c:sexp_apply:make_call"], instances=frames(1)),
  dict(VMG, name="call_frame", functions=["vm.c:sexp_apply:case SEXP_OP_CALL", "vm.c:sexp_apply:make_call"], instances=frames(0)),
 ]
+def vframes(tail):
+    out = []
+    for j0 in (0, 2):
+        for ntmp in (0, 2):
+            for nfix in (0, 1, 2):
+                for extra in (0, 1, 2):
+                    quick = (j0, ntmp) == (2, 2) and (nfix, extra) in ((0, 0), (1, 2), (2, 1))
+                    out.append({"name": "j%d_t%d_f%d_x%d" % (j0, ntmp, nfix, extra), "defs": {"J0": j0, "NTMP": ntmp, "N": nfix + extra, "EXTRA": extra, "VARIADIC": 1, "TAIL": tail},
+                                "tiers": ["quick", "thorough"] if quick else ["thorough"]})
+    return out
+
+
+GROUPS += [
+ dict(VMG, name="tail_call_variadic", functions=["vm.c:sexp_apply:case SEXP_OP_TAIL_CALL", "vm.c:sexp_apply:make_call(variadic callee)"], instances=vframes(1),
+      flags=VMG["flags"] + ["-DVM_NPAIRS=6"], bound="variadic callee with 0..2 fixed parameters and 0..2 rest arguments; caller arity 0 or 2, temporaries 0 or 2 (quick: 3 shapes); slot contents symbolic",
+      assumptions=["callee is a variadic procedure that uses its rest list, max_depth 4, enough stack", "opcode bodies extracted from vm.c (vlib/vmextract.py); exception constructors and sexp_cons are contract stubs"]),
+ dict(VMG, name="call_variadic", functions=["vm.c:sexp_apply:case SEXP_OP_CALL", "vm.c:sexp_apply:make_call(variadic callee)"], instances=vframes(0),
+      flags=VMG["flags"] + ["-DVM_NPAIRS=6"], bound="the same shapes for a non-tail call",
+      assumptions=["callee is a variadic procedure that uses its rest list, max_depth 4, enough stack", "opcode bodies extracted from vm.c (vlib/vmextract.py); exception constructors and sexp_cons are contract stubs"]),
+]
 GEN = {"label": "bounded", "harness": "harness/C05/gen.c", "flags": FLAGS[:2], "stubs": ["sexp_generate"],
        "stub_src": ["harness/C05/genstubs.c"], "unwind": 10, "min_obligations": 4, "timeout": 200, "mem_gb": 3,
        "bound": "AST shapes: a conditional, a sequence of 3 forms, an application with 2 arguments; entry tail flag and NO_TAIL_CALLS_P symbolic",
@@ -57,6 +77,6 @@ META = {
  "trusted_base": ["CBMC 6.11.0 front end and SAT back end", "vlib/vmextract.py opcode extraction (drops the dispatch loop)", "harness/prelude.h substitutions"],
  "assumptions": ["the unbounded statement (N iterations of a tail-recursive loop run in constant stack) follows from 'no frame growth per tail call' by induction on N: argued on paper, not machine-checked",
                  "sexp_generate never raises the tail flag (exit flag is the entry flag or cleared): assumed of the recursive dispatcher, checked for generate_cnd / generate_seq / generate_general_app"],
- "not_covered": ["that the macros of init-7.scm expand cond/case/and/or/do/named let keeping tail position (Scheme)", "generate_opcode_app / generate_tail_jump / generate_lambda flag handling", "variadic callees and opcode callees in make_call",
+ "not_covered": ["that the macros of init-7.scm expand cond/case/and/or/do/named let keeping tail position (Scheme)", "generate_opcode_app / generate_tail_jump / generate_lambda flag handling", "opcode callees and variadic callees that ignore their rest list (SEXP_PROC_UNUSED_REST) in make_call",
                  "'beyond the configured maximum an out-of-stack error object is returned' end to end (sexp_grow_stack's refusal is checked; the error propagation through sexp_apply's epilogue is not)"],
 }
